@@ -183,3 +183,133 @@ def _guaranteed(model, extra):
                 if not good:
                     return {"confirmed": True, "call": f"{fname}({number})", "bounds": [str(b.comparison) + " " + str(b.term) for b in bounds], "aggregate_value": str(v), "result": res}
     return {"confirmed": False, "result": res}
+
+
+# ---------------------------------------------------------------------------------------------
+# C08: brute-force referee for literal implication under valid mappings
+def _lit_parts(lit):
+    sym = lit.atom.symbol
+    return (sym.name, len(sym.arguments)), list(sym.arguments), A.Sign(lit.sign)
+
+
+def _arg_value(arg, env, exist):
+    """value of an atom argument: `_` -> taken from exist (iterator position), Variable -> env, number -> itself,
+    anything else -> pseudo variable named by its text"""
+    if arg.ast_type == A.ASTType.Variable:
+        if arg.name == "_":
+            return exist
+        return env[arg.name]
+    if arg.ast_type == A.ASTType.SymbolicTerm and arg.symbol.type == clingo.SymbolType.Number:
+        return arg.symbol.number
+    return env[str(arg)]
+
+
+def _atom_true(I, pred, args, env, dom):
+    import itertools
+
+    anon = [i for i, a in enumerate(args) if a.ast_type == A.ASTType.Variable and a.name == "_"]
+    base = [None if i in anon else _arg_value(a, env, None) for i, a in enumerate(args)]
+    for vals in itertools.product(dom, repeat=len(anon)):
+        t = list(base)
+        for i, v in zip(anon, vals):
+            t[i] = v
+        if (pred, tuple(t)) in I:
+            return True
+    return False
+
+
+def _lit_holds(I, lit, env, dom):
+    pred, args, sign = _lit_parts(lit)
+    t = _atom_true(I, pred, args, env, dom)
+    return (not t) if sign == A.Sign.Negation else t
+
+
+def _mapping_valid(I, mp, dom):
+    import itertools
+
+    for a in itertools.product(dom, repeat=mp.head_pred.arity):
+        if (("%s" % mp.head_pred.name, mp.head_pred.arity), a) in I:
+            b = tuple(a[i] for i in mp.var_map)
+            t = ((mp.body_pred.pred.name, mp.body_pred.pred.arity), b) in I
+            if mp.body_pred.sign == A.Sign.Negation:
+                t = not t
+            if not t:
+                return False
+    return True
+
+
+def find_countermodel(lhs, rhs, mappings, limit=40000, seed=0):
+    """search an interpretation + assignment with all mappings valid, lhs true, rhs false"""
+    import itertools
+    import random
+
+    names = set()
+    nums = set()
+    for lit in (lhs, rhs):
+        _p, args, _s = _lit_parts(lit)
+        for a in args:
+            if a.ast_type == A.ASTType.Variable:
+                if a.name != "_":
+                    names.add(a.name)
+            elif a.ast_type == A.ASTType.SymbolicTerm and a.symbol.type == clingo.SymbolType.Number:
+                nums.add(a.symbol.number)
+            else:
+                names.add(str(a))
+    dom = sorted(set([1, 2]) | nums)[:3]
+    preds = {_lit_parts(lhs)[0], _lit_parts(rhs)[0]}
+    for mp in mappings:
+        preds.add((mp.head_pred.name, mp.head_pred.arity))
+        preds.add((mp.body_pred.pred.name, mp.body_pred.pred.arity))
+    if any(p[1] > 3 for p in preds) or len(names) > 5:
+        return None
+    atoms = [(p, t) for p in sorted(preds) for t in itertools.product(dom, repeat=p[1])]
+    names = sorted(names)
+    rnd = random.Random(seed)
+
+    def interps():
+        if len(atoms) <= 14:
+            for bits in itertools.product((False, True), repeat=len(atoms)):
+                yield {a for a, b in zip(atoms, bits) if b}
+        else:
+            for _ in range(limit):
+                yield {a for a in atoms if rnd.random() < 0.5}
+
+    import time
+
+    t_end = time.time() + 15
+    tried = 0
+    if any(p[1] > 3 for p in preds) or len(names) > 5:
+        return None
+    for I in interps():
+        tried += 1
+        if tried > limit or time.time() > t_end:
+            break
+        if not all(_mapping_valid(I, mp, dom) for mp in mappings):
+            continue
+        for vals in itertools.product(dom, repeat=len(names)):
+            env = dict(zip(names, vals))
+            if _lit_holds(I, lhs, env, dom) and not _lit_holds(I, rhs, env, dom):
+                return {"interpretation": sorted(f"{p[0]}{t}" for p, t in I), "assignment": env}
+    return None
+
+
+def _wellformed_mapping(mp):
+    return len(mp.var_map) == mp.body_pred.pred.arity and all(0 <= i < mp.head_pred.arity for i in mp.var_map)
+
+
+@mirror("superseeded")
+def _superseeded(model, extra):
+    from ngo.cleanup import CleanupTranslator
+
+    lhs, rhs = build(model["lhs"]), build(model["rhs"])
+    mappings = [mp for mp in build(model.get("superseeds") or []) if _wellformed_mapping(mp)]
+    ct = CleanupTranslator([])
+    ct.superseeds = set(mappings)
+    res = ct._superseeded(lhs, rhs)  # pylint: disable=protected-access
+    info = {"call": f"_superseeded({lhs}, {rhs})", "superseeds": [str(m) for m in mappings], "result": res}
+    if not res:
+        return {"confirmed": False, **info}
+    cm = find_countermodel(lhs, rhs, mappings)
+    if cm is None:
+        return {"confirmed": False, **info}
+    return {"confirmed": True, **info, "countermodel": cm, "why": "all mappings are valid in this interpretation, lhs holds, rhs does not, yet rhs is reported as superseeded"}
